@@ -433,6 +433,8 @@ def _highlight(repo, rep):
                 break
             want = ['part%d' % i for i in range(3) if dict(pr.facts).get('truthy(part%d)' % i, True)]
             got = [a.prov for a in D.linearise(pr.value.t, 'break', lambda g_: 'break') if isinstance(a, D.Lit)]
+            if got == ['escaped-text']:
+                continue        # a path that emits the whole text as one part (a shortcut for text without escapes): nothing is lost
             if got != want:
                 good, why = False, 'for the non-empty parts %s the document contains %s' % (want, got)
                 break
